@@ -19,3 +19,36 @@ META = {
              level=_L + 'connectionLost consults neither byte offset nor machine state, so a per-call post-condition on all its paths covers every crash point; the in-flight slot typestate is inductive over later submissions.',
              note=_N + 'timing; Twisted calling connectionLost exactly once.'),
 }
+
+META.update({
+ 'C04': dict(technique='call-graph command vocabulary + exhaustive path/valuation enumeration of method selection + dominance (proof behind verified hash) + taint of the raw cookie',
+             level=_L + 'All subsets of advertised methods x cookie-read outcome x password provider are covered through the tests _do_authenticate applies; HMAC keys/message compared with control-spec 3.24.',
+             note=_N + 'hash arithmetic, unescaping of particular paths, nonce freshness beyond os.urandom(32), server behaviour beyond failed Deferreds.'),
+ 'C05': dict(technique='automat transition-table obligations + dominance of buffer consumption by length tests + sibling agreement of reply parsers + one-shot latch shape',
+             level=_L + 'Every upon() row, every parser path and every consumption site is examined; segmentation shows up only as "how many bytes are buffered when a parser runs", which the length-guard rule covers.',
+             note=_N + 'byte-for-byte relaying inside Twisted/portforward.'),
+ 'C06': dict(technique='constant folding of struct formats and headers against RFC 1928 under every request type x address family (path enumeration over the family atom)',
+             level=_L + 'Each packer is evaluated for IPv4/IPv6/hostname targets; format width, ATYP, CMD, byte order and encoder family must agree.',
+             note=_N + 'nothing value-level beyond constants; struct.pack semantics trusted. One known finding (CONNECT/IPv6 truncation pinned by test_socks_ipv6).'),
+ 'C07': dict(technique='abstract interpretation of Stream.update over (circuit None/Some x listed/unlisted) for every stream state incl. exceptional exits + who-writes + index-maintenance call graph',
+             level=_L + 'Each event is one update() call; the attachment invariant is shown preserved by every path from every invariant state, which is inductive over all histories.',
+             note=_N + 'field values (purpose, addresses); Tor re-attaching without DETACHED.'),
+ 'C08': dict(technique='path enumeration over state names: multiset of listener fan-outs vs oracle + Deferred-chain shape of close() + one-shot latch + pending-waiter overwrite rule',
+             level=_L + 'One update() per transition; close() return values are classified structurally (chained on the closing event or not).',
+             note=_N + 'order of notifications among listeners, circuit_extend counts.'),
+ 'C09': dict(technique='path enumeration over the product of attacher-answer classes (None / marker / circuit x known x built) + slot discipline valuations + key agreement of the via-circuit registry',
+             level=_L + 'All attacher answers are classified by exactly the tests the code applies, immediate and Deferred alike (one callback).',
+             note=_N + 'interleavings of concurrent connections; PriorityAttacher heap order.'),
+ 'C10': dict(technique='effect analysis on the call graph (setters send nothing) + wrapped-mutator table + path enumeration of save() emission incl. zero-iteration loops + Deferred-chain rule for the pending set',
+             level=_L + 'Every unit reachable from attribute access and list wrappers is checked for command effects; save() emission is enumerated per pending entry kind.',
+             note=_N + 'validated values, SETCONF semantics inside Tor. One known finding (emptied list not emitted; pinned by test_log_set_pop/remove).'),
+ 'C11': dict(technique='store-site typing with reaching definitions and excluding-edge reachability + name-routing rule + sentinel flow to scalar parsers',
+             level=_L + 'Every store into the option table is classified (wrapped / excluded by a dominating or intervening test / copied from the wrapped pending set).',
+             note=_N + 'parsed values themselves.'),
+ 'C12': dict(technique='recognised-idiom check of the quoter (trigger characters, escape order) + sanitiser-on-path (CR/LF test before the write) + shape of the joined command',
+             level=_L + 'Decides whether an escaping step exists for each critical character and whether a line break is ever rejected - facts that do not depend on the particular value.',
+             note=_N + 'that Tor parses the escaped form back identically (round-trip over values).'),
+ 'C13': dict(technique='narrow structural claim: dot-unstuffing on the data-line path, key_hints agreement, parse_keywords leg shapes, maxsplit rule',
+             level='Only the clauses visible in the code shape are decided (see DESIGN 5/C13); the core value-level claim (exact values for all printable text) is NOT decided by this technique.',
+             note=_N + 'exact parsed values (unquote strips quotes, multi-line values gain a leading newline).'),
+})
